@@ -115,7 +115,9 @@ impl Schemas {
 pub fn has_list_in_list(m: &Module, ty: &Ty) -> bool {
     let mut s = std::collections::BTreeSet::new();
     forms(m, ty, None, &mut s, false);
-    s.contains("list-in-list")
+    // neither a list directly in a list nor a list as CHOICE alternative has a protobuf mapping (recorded):
+    // the types that contain one are left out of the schema against which the other types' values are decoded
+    s.contains("list-in-list") || s.contains("list-alternative")
 }
 
 fn reduced_module(m: &Module) -> Module {
